@@ -115,6 +115,15 @@ def run(ctx, chk):
     if not body:
         chk.error('no copy-loop iteration found in MemoryAreas::run_clock_cycles (anchor lost)')
         return chk.finish('anchors missing')
+    countdown = any(d[0][0] == 'o' and d[0][2] == 'ugt' and d[0][3][0] == 's' and d[0][3][2].startswith('loopvar:')
+                    for r in body for d in r.state.decisions)
+    if not countdown:
+        # the rules below understand the copy loop as "remaining = min(0xa0 - offset, clocks / 4); while remaining > 0".
+        # Another way of writing the loop (an iterator over offsets, a computed end) is not a defect: no verdict
+        chk.error('the OAM DMA copy loop is not written as a count-down over min(0xa0 - offset, clocks / 4): its shape is not '
+                  'understood by this check (no verdict on the loop clauses)')
+        chk.violations[:] = [v for v in chk.violations if not (v['rule'] == 'C16.5' and v['key'] == 'batch-size')]
+        return chk.finish('copy loop shape not understood')
     Bs = Xs = None
     step_ok = True
     why = ''
